@@ -1,34 +1,37 @@
-(* Catching up across a fork (property C11), part 3: the synchronisation mechanism does NOT always make progress.
+(* Catching up across a fork (property C11), part 3: where the synchronisation mechanism does NOT make progress.
 
-   LIVELOCK 1 ([stuck_long_light_fork]) - two nodes, nobody lies, every request is answered.
-   The by-height part of Synchronize asks for the heights TopHeight+1 .. TopHeight+1+PARALLEL_BLOCKS_DOWNLOAD (50) and,
-   when nothing arrives that moves TopHeight, starts again AT TopHeight after 21 iterations.  TopHeight is the height of
-   OUR main chain: blocks of the peer's branch that are stored as an alternative chain do not move it.  The blocks above
-   the window are only ever reached as parents of orphans, and an orphan's parent is below the orphan.  So when the peer's
-   branch overtakes our chain in cumulative difficulty only MORE THAN 51 BLOCKS ABOVE OUR OWN HEIGHT, the node stores
-   the peer's blocks up to height TopHeight+51 as an alternative chain (still lighter: no reorganisation), the download
-   queue drains, and from then on every 22 iterations the same request (TopHeight+1, 50) is answered with 51 blocks
-   that are all duplicates.  No block is ever stored again; the node never reaches the peer's tip.
-   Witness (verification network, difficulty window 4, minimal difficulty 4, all blocks without side blocks and
-   with blank stake signature):
-     our chain   genesis + 14 blocks with EQUAL timestamps (difficulty 4 4 5 6 7 9 11 14 18 23 30 39 51 67), tip hash
-                 1014, height 14, cumulative difficulty 145;
-     peer chain  genesis + 75 blocks 15 s apart (difficulty 4 throughout), tip hash 2075, height 75, cumulative
-                 difficulty 155 (> 145: heavier); at height 65 = 14 + 51 its cumulative difficulty is 135 (< 145).
-   From round 200 on the state repeats with period 22: node tip 1014, store = genesis + our 14 + the peer's blocks of
-   heights 1..65, queue empty, SyncLastRequestHeight 64; the peer's block of height 66 is never stored.
-   Consequence: [sync_fork_full] (Proofs/Sync.v) is FALSE ([sync_fork_full_refuted]).
-   Replayed on the Go implementation with the live two-node harness (tools/replay_c11_long_light_fork.patch adds the two
-   scenarios to harness/cmd/ledger/c11.go; the real chains have the same cumulative difficulties 145 / 135 at height 65 /
-   155): "long-light-fork" - node B (14 blocks) had not moved (tip, height 14, cumulative difficulty 145) when the 150 s
-   bound expired, in both attempts; the control "long-light-control" (B holds only the first 13 of its blocks,
-   cumulative difficulty 112 < 133 = the peer's at height 13 + 51) reached the peer's tip in 27 s.
+   LIVELOCK 1 (KNOWN_FINDINGS C11-long-light-fork; REPAIRED, kept as history and as the regression example
+   [example_long_light_fork] of Proofs/Sync2Example.v) - two nodes, nobody lies, every request is answered.
+   Before the repair the by-height part of Synchronize asked for the heights TopHeight+1 .. TopHeight+1+
+   PARALLEL_BLOCKS_DOWNLOAD (50) and, when nothing arrived that moved TopHeight, started again AT TopHeight after 21
+   iterations.  TopHeight is the height of OUR main chain: blocks of the peer's branch that are stored as an alternative
+   chain do not move it.  The blocks above the window were only ever reached as parents of orphans, and an orphan's
+   parent is below the orphan.  So when the peer's branch overtakes our chain in cumulative difficulty only MORE THAN 51
+   BLOCKS ABOVE OUR OWN HEIGHT, the node stored the peer's blocks up to height TopHeight+51 as an alternative chain
+   (still lighter: no reorganisation), the download queue drained, and from then on every 22 iterations the same
+   request (TopHeight+1, 50) was answered with 51 duplicates: no block was ever stored again.
+   Witness (verification network): our chain = genesis + 14 blocks with EQUAL timestamps (difficulty 4 4 5 6 7 9 11 14
+   18 23 30 39 51 67; tip 1014, cumulative difficulty 145); peer chain = genesis + 75 blocks 15 s apart (difficulty 4;
+   tip 2075, cumulative difficulty 155; 135 at height 65 = 14 + 51).  On the old model the state repeated from round
+   200 on with period 22 (node tip 1014, the peer's blocks of heights 1..65 stored, queue empty); on the Go
+   implementation node B had not moved after 2 x 150 s while the control (13 blocks) caught up in 27 s.
+   Repair (Model/Sync.v [tick_height], blockchain.go Synchronize): when the requested blocks have not extended the main
+   chain after 21 iterations they are taken for lost only if the node holds no block at the last requested height at
+   all (its own height and the heights of its alternative tips are all below it); otherwise the next request
+   continues ABOVE the last requested height.
 
-   LIVELOCK 2 ([stuck_stale_target]) - needs one false or outdated STATS announcement.
-   SyncHeight / SyncDiff only ever grow.  After some peer has announced (height 100, cumulative difficulty 1000) and
-   delivers nothing (it lied, or it is gone), a node of height 5 keeps asking for the heights 6..56; an honest peer
-   whose chain is heavier than ours but NOT higher (a fork below our tip, height 5) has nothing there, and the branch
-   "heavier but not higher" of Synchronize is never taken because SyncHeight (100) is above our height. *)
+   LIVELOCK 2 ([stuck_stale_target]) - one false or outdated STATS announcement.
+   In the model SyncHeight / SyncDiff only ever grow.  After some peer has announced (height 100, cumulative difficulty
+   1000) and delivers nothing, a node of height 5 keeps asking for the heights 6..56; an honest peer whose chain is
+   heavier than ours but NOT higher (a fork below our tip, height 5) has nothing there, and the branch "heavier but not
+   higher" of Synchronize is never taken because SyncHeight (100) is above our height.
+   Implementation: the variant "the announcer has LEFT" (a disconnection, in the fault list of C11) was reproduced live
+   (scenario stale-target-peer-gone) and is repaired (KNOWN_FINDINGS C11-stale-target-peer-gone: every Synchronize
+   iteration recomputes the target from the peers that are still connected - not modelled, the model's set of peers never
+   shrinks); the variant "the announcer stays connected and never delivers" is what this theorem states and remains
+   true of the code (a lying peer is outside the fault list of C11).
+   Consequence: [sync_fork_full] (Proofs/Sync.v), which puts no condition on the target the node has heard of, is FALSE
+   ([sync_fork_full_refuted]). *)
 From Coq Require Import Arith Lia.
 From Virel Require Import Lib.Config Lib.U64 Lib.AMap Model.Ledger Model.Node Model.Sync Spec.Chain
   Proofs.NodeBasics Proofs.ForkChoice Proofs.ChainInv Proofs.ChainRun Proofs.ChainHeights Proofs.Sync
@@ -141,20 +144,11 @@ Proof.
   destruct (IH (sround cfg ga tk peer now s)) as (j & Hj). exists (S j). exact Hj.
 Qed.
 
-(* ------------------------------------------------------------------ livelock 1: a long light fork *)
+(* ------------------------------------------------------------------ the chains of (repaired) livelock 1: a long light fork *)
 Definition k_ours : list block := Eval vm_compute in k_build 14 k_n0 k_genesis 1001 0 0 [].
 Definition k_theirs : list block := Eval vm_compute in k_build 75 k_n0 k_genesis 2001 0 15000 [].
 Definition k_B : node := k_feed k_ours.      (* our node *)
 Definition k_P : node := k_feed k_theirs.    (* the peer *)
-
-Notation k_srounds := (srounds cfg_verifnet 7 0 k_P k_now).
-
-(* what is observed of a state: tip hash, height, cumulative difficulty, number of stored blocks, is the peer's block of
-   height 66 stored, target, SyncLastRequestHeight, queue *)
-Definition k_obs (s : sync) :=
-  (top (sy_node s), top_h (sy_node s), top_cd (sy_node s), length (blocks (sy_node s)),
-   match get_block (sy_node s) 2066 with Some _ => true | None => false end,
-   sy_height s, sy_diff s, sy_last s, sy_queue s, length (sy_buf s)).
 
 Lemma k_chains :
   length k_ours = 14%nat /\ length k_theirs = 75%nat /\
@@ -169,78 +163,6 @@ Lemma k_chains :
   acc_chain_b cfg_verifnet 7 k_B k_theirs = true /\
   top (apply_ext cfg_verifnet 7 k_B k_theirs) = 2075.
 Proof. repeat match goal with |- _ /\ _ => split end; vm_compute; reflexivity. Qed.
-
-Lemma k_linear : linear_chain_b cfg_verifnet 7 k_n0 k_theirs = true.
-Proof. vm_compute. reflexivity. Qed.
-
-(* the schedule is periodic from round 200 on *)
-Lemma k_period : k_srounds (200 + 22) (sync0 k_B) = k_srounds 200 (sync0 k_B).
-Proof. vm_compute. reflexivity. Qed.
-
-Lemma k_state_200 :
-  k_obs (k_srounds 200 (sync0 k_B)) = (1014, 14, 145, 80%nat, false, 75, 155, 64, [], 0%nat).
-Proof. vm_compute. reflexivity. Qed.
-
-Definition k_never (s : sync) : bool :=
-  negb (top (sy_node s) =? top k_P) && match get_block (sy_node s) 2066 with Some _ => false | None => true end &&
-  (top (sy_node s) =? 1014).
-
-Lemma k_first_222 : forallb (fun j => k_never (k_srounds j (sync0 k_B))) (seq 0 222) = true.
-Proof. vm_compute. reflexivity. Qed.
-
-(* in every round of the fair schedule: our tip stays our own block 1014, the peer's block of height 66 is not stored, the
-   peer's tip 2075 is not reached *)
-Theorem stuck_long_light_fork : forall j,
-  let s := k_srounds j (sync0 k_B) in
-  top (sy_node s) = 1014 /\ top (sy_node s) <> top k_P /\ get_block (sy_node s) 2066 = None.
-Proof.
-  apply (srounds_finite cfg_verifnet 7 0 k_P k_now 200 22 (sync0 k_B)
-           (fun s => top (sy_node s) = 1014 /\ top (sy_node s) <> top k_P /\ get_block (sy_node s) 2066 = None)
-           ltac:(lia) k_period).
-  intros j Hj. pose proof (forall_lt_dec _ 222 k_first_222 j Hj) as H. cbn beta in H. unfold k_never in H.
-  apply andb_prop in H. destruct H as (H & H3). apply andb_prop in H. destruct H as (H1 & H2).
-  apply N.eqb_eq in H3. split; [exact H3|]. split.
-  - apply Bool.negb_true_iff in H1. apply N.eqb_neq in H1. exact H1.
-  - destruct (get_block _ 2066); [discriminate|reflexivity].
-Qed.
-
-(* ---- hence the unrestricted statement is false ---- *)
-Lemma k_P_ext : k_P = apply_ext cfg_verifnet 7 k_n0 k_theirs.
-Proof. vm_compute. reflexivity. Qed.
-
-Lemma k_prevalidates : forall b, In b k_theirs -> prevalidate_block cfg_verifnet 0 b k_now = Ok tt.
-Proof.
-  assert (H : forallb (fun b => match prevalidate_block cfg_verifnet 0 b k_now with Ok _ => true | _ => false end) k_theirs = true)
-    by (vm_compute; reflexivity).
-  rewrite forallb_forall in H. intros b Hb. specialize (H b Hb).
-  destruct (prevalidate_block cfg_verifnet 0 b k_now) as [[]| |]; [reflexivity|discriminate|discriminate].
-Qed.
-
-Theorem sync_fork_full_refuted : ~ sync_fork_full cfg_verifnet 7 0.
-Proof.
-  intros H. unfold sync_fork_full in H.
-  assert (Hl1 : N.of_nat (length k_ours) < two64 - 1) by (vm_compute; reflexivity).
-  assert (Hl2 : N.of_nat (length k_theirs) < two64 - 1) by (vm_compute; reflexivity).
-  pose proof (proj1 (k_feed_inv k_ours Hl1)) as HFB. change (FInv k_B) in HFB.
-  pose proof (proj2 (k_feed_inv k_theirs Hl2)) as HCP. change (chain_structure 1 k_P) in HCP.
-  specialize (H k_P (sync0 k_B) k_theirs HFB (chain_structure_height_index 1 k_P HCP)).
-  destruct H as (bound & Hb).
-  - exists k_n0. split; [|split].
-    + apply linear_chain_b_ext. exact k_linear.
-    + symmetry. exact k_P_ext.
-    + intros hh x Hx. unfold get_block in Hx. change (blocks k_n0) with [(1, k_genesis)] in Hx.
-      unfold nget in Hx. cbn [aget] in Hx. destruct (N.eqb_spec hh 1) as [->|_]; [|discriminate].
-      injection Hx as <-. vm_compute. reflexivity.
-  - intros h b Hb. cbn [sync0 sy_node] in Hb. destruct HFB as (_ & _ & Hmax).
-    pose proof (Hmax h b Hb) as Hle. clear - Hle.
-    assert (E1 : top_cd k_B = 145) by (vm_compute; reflexivity). assert (E2 : top_cd k_P = 155) by (vm_compute; reflexivity).
-    revert Hle. generalize (b_cd b). intros c Hle. rewrite E1 in Hle. rewrite E2. lia.
-  - reflexivity.
-  - reflexivity.
-  - specialize (Hb k_now k_prevalidates).
-    destruct (sim_visits cfg_verifnet 7 0 k_P k_now bound (sync0 k_B)) as (j & Hj). rewrite Hj in Hb.
-    destruct (stuck_long_light_fork j) as (_ & Hne & _). apply Hne. exact Hb.
-Qed.
 
 (* ------------------------------------------------------------------ livelock 2: a stale or false target *)
 (* our chain: genesis + 5 blocks 15 s apart (tip 3005, cumulative difficulty 15); the honest peer: genesis + 5 blocks
@@ -260,7 +182,9 @@ Lemma k_control2 : top (sy_node (k_srounds2 5 (sync0 k_B2))) = 4005.
 Proof. vm_compute. reflexivity. Qed.
 
 (* the same node after a STATS packet (height 100, cumulative difficulty 1000) from a peer that delivers nothing *)
-Definition k_stale : sync := recv_stats (sync0 k_B2) 100 1000.
+Definition k_stale : sync := set_target (sync0 k_B2) 100 1000.
+Lemma k_stale_eq : recv_stats (sync0 k_B2) 100 1000 = k_stale.
+Proof. vm_compute. reflexivity. Qed.
 
 Lemma k_period2 : k_srounds2 (22 + 22) k_stale = k_srounds2 22 k_stale.
 Proof. vm_compute. reflexivity. Qed.
@@ -285,3 +209,47 @@ Proof.
   apply andb_prop in H. destruct H as (H1 & H2).
   apply N.eqb_eq in H1, H3, H4. apply Nat.eqb_eq in H2. repeat split; assumption.
 Qed.
+
+(* ---- hence the unrestricted statement is false ---- *)
+Lemma k_linear2 : linear_chain_b cfg_verifnet 7 k_n0 k_theirs2 = true.
+Proof. vm_compute. reflexivity. Qed.
+
+Lemma k_P2_ext : k_P2 = apply_ext cfg_verifnet 7 k_n0 k_theirs2.
+Proof. vm_compute. reflexivity. Qed.
+
+Lemma k_prevalidates2 : forall b, In b k_theirs2 -> prevalidate_block cfg_verifnet 0 b k_now = Ok tt.
+Proof.
+  assert (H : forallb (fun b => match prevalidate_block cfg_verifnet 0 b k_now with Ok _ => true | _ => false end) k_theirs2 = true)
+    by (vm_compute; reflexivity).
+  rewrite forallb_forall in H. intros b Hb. specialize (H b Hb).
+  destruct (prevalidate_block cfg_verifnet 0 b k_now) as [[]| |]; [reflexivity|discriminate|discriminate].
+Qed.
+
+Theorem sync_fork_full_refuted : ~ sync_fork_full cfg_verifnet 7 0.
+Proof.
+  intros H. unfold sync_fork_full in H.
+  assert (Hl1 : N.of_nat (length k_ours2) < two64 - 1) by (vm_compute; reflexivity).
+  assert (Hl2 : N.of_nat (length k_theirs2) < two64 - 1) by (vm_compute; reflexivity).
+  pose proof (proj1 (k_feed_inv k_ours2 Hl1)) as HFB. change (FInv k_B2) in HFB.
+  pose proof (proj2 (k_feed_inv k_theirs2 Hl2)) as HCP. change (chain_structure 1 k_P2) in HCP.
+  specialize (H k_P2 k_stale k_theirs2 HFB (chain_structure_height_index 1 k_P2 HCP)).
+  destruct H as (bound & Hb).
+  - exists k_n0. split; [|split].
+    + apply linear_chain_b_ext. exact k_linear2.
+    + symmetry. exact k_P2_ext.
+    + intros hh x Hx. unfold get_block in Hx. change (blocks k_n0) with [(1, k_genesis)] in Hx.
+      unfold nget in Hx. cbn [aget] in Hx. destruct (N.eqb_spec hh 1) as [->|_]; [|discriminate].
+      injection Hx as <-. vm_compute. reflexivity.
+  - intros h b Hb. cbn [k_stale set_target sync0 sy_node] in Hb. destruct HFB as (_ & _ & Hmax).
+    pose proof (Hmax h b Hb) as Hle. clear - Hle.
+    assert (E1 : top_cd k_B2 = 15) by (vm_compute; reflexivity). assert (E2 : top_cd k_P2 = 17) by (vm_compute; reflexivity).
+    revert Hle. generalize (b_cd b). intros c Hle. rewrite E1 in Hle. rewrite E2. lia.
+  - reflexivity.
+  - reflexivity.
+  - specialize (Hb k_now k_prevalidates2).
+    destruct (sim_visits cfg_verifnet 7 0 k_P2 k_now bound k_stale) as (j & Hj). rewrite Hj in Hb.
+    destruct (stuck_stale_target j) as (Ht & _). cbn zeta in Ht.
+    assert (E : top k_P2 = 4005) by (vm_compute; reflexivity).
+    congruence.
+Qed.
+
